@@ -18,6 +18,7 @@ var Registry = map[string]func() int{
 	"C08": C08,
 	"C12": C12,
 	"C14": C14,
+	"C15": C15,
 }
 
 func IDs() []string {
